@@ -1,5 +1,5 @@
 (* Single entry point of the executable models: function id + argument tree -> result tree. *)
-From PV Require Export Model.ComponentsX Model.EnginesX Model.SelectX.
+From PV Require Export Model.ComponentsX Model.EnginesX Model.SelectX Model.SimulatorX.
 From PV Require Model.RemoteJob.   (* not exported: its short names (step, run, status, ...) stay qualified *)
 From PV Require Export Model.LocalJobX.
 
@@ -9,6 +9,7 @@ Definition dispatch (f : Z) (x : sx) : sx :=
   | 10 => x_run_prog x
   | 20 => x_amps x | 21 => x_amp1 x | 22 => x_dist x | 23 => x_masked x | 24 => x_submatrix x
   | 40 => x_condition x
+  | 30 => x_svd_dist x
   (* 1700 = the code as it is now (both C17 repairs are in /repo: fix commits 3528201e, a6e53956);
      1703 = the code before the repairs (kept for the _refuted theorems and their witnesses) *)
   | 1700 => RemoteJob.x_rj_patch x | 1701 => RemoteJob.x_rj_patch x | 1702 => RemoteJob.x_rj_spec x | 1703 => RemoteJob.x_rj_code x
